@@ -5,7 +5,7 @@ def _c04_case(c):
     for f in c.split(" "):
         if f.startswith("rp="):
             p = f[3:].split(":")
-            return {"stream": p[0], "genseed": p[1], "thorough": "1" if int(p[2]) > 20 else "0"}
+            return {"stream": p[0], "genseed": p[1], "thorough": p[2]}
     return {"raw": c[:2000]}
 
 
